@@ -146,5 +146,17 @@ PROPS["C12"] = {
     "assumptions": ["single-run fragments carry the canonical data offset (fragments produced by the library)"],
 }
 
+
+PROPS["C19"] = {
+    "level": "proof",
+    "technique": "Lean 4 proof (invariant by induction over AddEmptyTrack histories: ids 1..n, trex ids, next id, moov child order; MoovBox.AddChild adjacency for arbitrary child sequences; 15-bit language packing round trip) + whole-encoding correspondence",
+    "level_text": "Model lean/Mp4ff/Model/Init.lean transcribes CreateEmptyInit/AddEmptyTrack/CreateEmptyTrak/MoovBox.AddChild/MvexBox.AddChild/SetLanguage/CreateHdlr and produces the complete byte image of the init segment (sample entries opaque); theorems in Props/C19.lean; tie = for every generated history the model's bookkeeping state and every byte of InitSegment.Encode are compared with the real code, plus direct oracles on the built and the decoded tree (ids, trex, next id, handler/media header/language, sample-entry contents = supplied parameter sets from an independent writer, Size, decode both paths -> same Info dump and identical re-encoding, IsFragmented, single- and multi-track fragments read back through the decoded trex).",
+    "level_note": "Trusted: Lean kernel, allowed axioms, hand transcription validated by the byte-exact correspondence; the Set...Descriptor bodies (sample entry construction) are exercised by the direct oracle only.",
+    "trusted": ["Model/Init.lean hand transcription of mp4/initsegment.go, moov.go, mvex.go, mdhd.go (SetLanguage/GetLanguage), hdlr.go (CreateHdlr)"],
+    "unmodelled": ["sample entry construction inside Set{AVC,HEVC,AAC,AC3,EC3,Wvtt,Stpp}Descriptor (opaque bytes in the model; checked by the direct oracle against independently written parameter sets)", "examples/initcreator CLI glue"],
+    "partial": [],
+    "assumptions": ["media types accepted by CreateHdlr (others panic by design: 'mediaType not supported')", "language tags are ASCII"],
+}
+
 # reasons for properties that are not claimed (yet)
 NOT_CLAIMED = {}
